@@ -1369,6 +1369,10 @@ def external(src, attr):
                 return vals[0] if len(vals) == 1 else tuple(vals)
             return Builtin('getter', g)
         return Builtin(attr, getter)
+    if attr == 'pairwise' and src in ('networkx.utils', 'itertools', 'more_itertools'):
+        return Builtin('pairwise', lambda it, a, k: list(zip(it.iterate(a[0]), it.iterate(a[0])[1:])))
+    if src in ('networkx', 'networkx.exception') and attr in ('NetworkXNoPath', 'NetworkXError', 'NodeNotFound'):
+        return ExcClass(attr, ('Exception',))
     if src == 'typing' or src == 'dataclasses' or src == 'collections.abc' or src == '__future__':
         return Builtin(f'{src}.{attr}', None)
     if src == 'warnings':
